@@ -1,0 +1,8 @@
+//go:build verif
+
+package uuid
+
+// Contracts for the goblvc verifier (see /verif/DESIGN.md). Comments only.
+//
+//@ func (u UUID) String() (r)
+//@   ensures r == u
